@@ -43,6 +43,82 @@ def main():
                                       f"(cumsum ends at {np.cumsum(w)[-1]!r}) and uniform draw {draw!r}: {err}",
                                       "input": {"weights": w.tolist(), "scheme": scheme, "draw": draw}}))
                     return
+    # ragged history (iterations that stored different numbers of particles, e.g. after a resume with another n_particles): the
+    # particles stored by Resampler.run must be the history particles at the drawn flat indices, copy counts floor/ceil
+    for scheme in ("syst", "mult"):
+        st = StateManager(2)
+        r5 = np.random.RandomState(4)
+        sizes = (5, 9, 3, 7)
+        for t, m in enumerate(sizes):
+            uu = r5.uniform(0, 1, (m, 2))
+            st.update_current({"u": uu, "x": uu * 2, "logl": -uu.sum(axis=1), "beta": 0.1 * t, "logz": 0.0, "iter": t, "calls": 0,
+                               "assignments": np.zeros(m, dtype=int)})
+            st.commit_current_to_history()
+        st.set_current("beta", 0.4)
+        uh = np.concatenate([np.asarray(a) for a in st._history["u"]])
+        N = len(uh)
+        w = r5.dirichlet(np.ones(N))
+        w[-3:] = 0.0
+        w = w / w.sum()
+        for u0 in (0.13, 0.5, 0.87):
+            np.random.random = lambda *a, **k: (np.full(a[0], u0) if a else u0)
+            np.random.rand = lambda *a: (np.full(a, u0) if a else u0)
+            st_rng = np.random.get_state()
+            np.random.seed(17)
+            tried += 1
+            err = None
+            try:
+                Resampler(st, 12, scheme, None, False, False).run(w.copy())
+                u, x, ll_ = st.get_current("u"), st.get_current("x"), st.get_current("logl")
+                if len(u) != 12:
+                    err = f"{len(u)} particles stored, expected 12"
+                else:
+                    idx = np.array([int(np.argmin(np.abs(uh - row).sum(axis=1))) for row in u])
+                    if not (np.allclose(u, uh[idx]) and np.allclose(x, 2 * uh[idx]) and np.allclose(ll_, -uh[idx].sum(axis=1))):
+                        err = "the stored particles are not whole history particles"
+                    elif (w[idx] == 0).any():
+                        err = f"history particle {int(idx[np.argmax(w[idx] == 0)])} has weight 0 and was resampled"
+                    elif scheme == "syst":
+                        copies = np.bincount(idx, minlength=N)
+                        bad = np.where((copies < np.floor(12 * w - 1e-9)) | (copies > np.ceil(12 * w + 1e-9)))[0]
+                        if len(bad):
+                            err = f"{int(copies[bad[0]])} copies of history particle {int(bad[0])}, n*w = {float(12 * w[bad[0]]):.4f}"
+            except Exception as e:
+                err = f"{type(e).__name__}: {e}"
+            finally:
+                np.random.random, np.random.rand = o_random, o_rand
+                np.random.set_state(st_rng)
+            if err:
+                print(json.dumps({"reproduced": True, "tried": tried, "detail": f"Resampler.run({scheme!r}) on a history with batch sizes {sizes}: {err}",
+                                  "input": {"batch_sizes": list(sizes), "scheme": scheme, "u0": u0}}))
+                return
+    # posterior(resample=True) at the extreme offsets (history whose normalised weights have a cumulative sum ending below 1)
+    import tempest, tempfile, os, shutil
+    tmpd = tempfile.mkdtemp(prefix="c06_")
+    cwd = os.getcwd()
+    os.chdir(tmpd)
+    try:
+      for rs_, npart in ((4, 24), (5, 16), (6, 40), (7, 24), (8, 32), (9, 16)):     # several histories: whether the cumulative weights end below 1 is a matter of rounding
+        s_ = tempest.Sampler(lambda u: 10 * u - 5, lambda x: -0.5 * float(np.sum(x ** 2)), n_dim=2, n_particles=npart, random_state=rs_, output_dir=tmpd)
+        s_.run(n_total=4 * npart, progress=False)
+        for trim in (True, False):
+              for u0 in (top, 0.0, 1 - 8.9e-16, 0.5):
+                  np.random.random = lambda *a, **k: (np.full(a[0], u0) if a else u0)
+                  np.random.rand = lambda *a: (np.full(a, u0) if a else u0)
+                  tried += 1
+                  try:
+                      out = s_.posterior(resample=True, trim_importance_weights=trim)
+                      err = None if len(out[0]) == len(out[1]) == len(out[2]) and len(out[0]) >= 1 else "posterior(resample=True) returned arrays of unequal length"
+                  except Exception as e:
+                      err = f"posterior(resample=True, trim={trim}) raised {type(e).__name__}: {e}"
+                  finally:
+                      np.random.random, np.random.rand = o_random, o_rand
+                  if err:
+                      print(json.dumps({"reproduced": True, "tried": tried, "detail": f"{err} (uniform offset {u0!r})", "input": {"trim": trim, "u0": u0}}))
+                      return
+    finally:
+        os.chdir(cwd)
+        shutil.rmtree(tmpd, ignore_errors=True)
     # systematic scheme at the Resampler level: floor/ceil copies for every piece of the offset, and E[copies] = n * w_i exactly
     # (the behaviour in u0 is piecewise constant: breakpoints u0 = n * c_k - i; every open piece is probed at its midpoint and
     # weighted by its length).  Includes pools of exactly n particles with weights equal only up to 1e-5 relative.
